@@ -34,7 +34,7 @@ theorem inv_init : Inv {} := by simp [Inv]
 
 theorem step_core (s : Mapping.State) (o : Op) (h : ¬ commits s o) :
     core (Mapping.step s o).1 = core s := by
-  cases o <;> simp only [Mapping.step, doBegin, doStore, doVote, doFinish, doAbort]
+  cases o <;> simp only [Mapping.step, Mapping.doBegin, Mapping.doStore, Mapping.doVote, Mapping.doFinish, Mapping.doAbort]
   all_goals repeat' split
   all_goals first
     | rfl
@@ -42,7 +42,7 @@ theorem step_core (s : Mapping.State) (o : Op) (h : ¬ commits s o) :
 
 theorem step_inv (s : Mapping.State) (o : Op) (h : Inv s) : Inv (Mapping.step s o).1 := by
   obtain ⟨h1, h2⟩ := h
-  cases o <;> simp only [Mapping.step, doBegin, doStore, doVote, doFinish, doAbort]
+  cases o <;> simp only [Mapping.step, Mapping.doBegin, Mapping.doStore, Mapping.doVote, Mapping.doFinish, Mapping.doAbort]
   all_goals repeat' split
   all_goals first
     | exact ⟨h1, h2⟩
